@@ -202,7 +202,13 @@ func (e *Engine) Probe(kind string) { e.Probes[kind]++ }
 func (e *Engine) Violate(prop, class, format string, args ...interface{}) {
 	v := Violation{Prop: prop, Class: class, Detail: fmt.Sprintf(format, args...)}
 	e.Violations = append(e.Violations, v)
-	e.Logf("VIOLATION", "%s %s: %s", prop, class, v.Detail)
+	// only the first line goes into the (hashed) history: details may carry
+	// stack traces, whose goroutine numbers and addresses differ per process
+	first := v.Detail
+	if i := strings.IndexByte(first, '\n'); i >= 0 {
+		first = first[:i]
+	}
+	e.Logf("VIOLATION", "%s %s: %s", prop, class, first)
 }
 
 // ---------------------------------------------------------------------------
